@@ -67,6 +67,9 @@ func (mbp *multipartBodyProcessor) ProcessRequest(reader io.Reader, v plugintype
 					return err
 				}
 				defer temp.Close()
+				// Register the temporary file before copying into it: if the copy fails, Transaction.Close
+				// still knows about the file and removes it instead of leaving it behind.
+				filesTmpNamesCol.Add("", temp.Name())
 				sz, err := io.Copy(temp, p)
 				if err != nil {
 					if !errors.Is(err, io.ErrUnexpectedEOF) {
@@ -76,7 +79,6 @@ func (mbp *multipartBodyProcessor) ProcessRequest(reader io.Reader, v plugintype
 					seenUnexpectedEOF = true
 				}
 				size = sz
-				filesTmpNamesCol.Add("", temp.Name())
 			} else {
 				sz, err := io.Copy(io.Discard, p)
 				if err != nil {
